@@ -195,3 +195,153 @@ for _cls in ('_StrReplacerIncludingNewLines', '_StrReplacerExcludingNewLines'):
                returns=Str, ensures={'a string': lambda result: isinstance(result, str)},
                # an invalid replacement template stems from the text of the test case: at the latest HARD_ERROR
                raises={HardErrorException: {}}, raises_only=(), replay=_replace_replay)
+
+# ------------------------------------------------------------------------------ instruction lines
+from exactly_lib.common import instruction_name_and_argument_splitter
+from exactly_lib.section_document.element_parsers import parser_for_dictionary_of_instructions as pfd
+from exactly_lib.section_document.element_parsers import instruction_parser_exceptions as ipe
+from exactly_lib.section_document.element_parsers.section_element_parsers import InstructionParser
+from exactly_lib.section_document.parse_source import ParseSource
+from exactly_lib.util import line_source
+
+P_PFD = 'exactly_lib.section_document.element_parsers.parser_for_dictionary_of_instructions'
+
+M.contract('exactly_lib.common.instruction_name_and_argument_splitter:splitter', params=dict(line=Str), returns=Str,
+           ensures={'a non-empty part of the line': lambda line, result: 0 < len(result) and len(result) <= len(line)},
+           raises={ValueError: {}}, raises_only=())
+M.loop('exactly_lib.common.instruction_name_and_argument_splitter:splitter', 0,
+       invariant=lambda idx, l: 1 <= idx and idx <= l, modifies=dict(idx=Int),
+       decreases=lambda idx, l: l - idx)
+
+import z3 as _z3
+from pyvc.values import SStr as _SStr, to_z3 as _to_z3, wrap as _wrap
+
+_SOURCE_STATE = ('current_line', 'remaining_source', 'remaining_part_of_current_line')
+
+
+def _consumed(interp, source, exactly=None):
+    """the state of a ParseSource after source has been consumed: the remaining source is a suffix of what
+    remained before (`exactly`: that many characters shorter)"""
+    before = interp.getattr(source, 'remaining_source')
+    for a in _SOURCE_STATE:
+        source._pv_attrs.pop(a, None)
+    after = interp.getattr(source, 'remaining_source')
+    interp.st.assume(_z3.SuffixOf(_to_z3(after), _to_z3(before)))
+    if exactly is not None:
+        interp.st.assume(_z3.Length(_to_z3(after)) == _z3.Length(_to_z3(before)) - _to_z3(exactly))
+
+
+def _consume_part_of_current_line(interp, self, args, kwargs):
+    (n,) = args
+    rest = interp.getattr(self, 'remaining_part_of_current_line')
+    if interp.branch(interp.compare(__import__('ast').Gt, n, _wrap(_z3.Length(_to_z3(rest))))):
+        raise PyRaise(ValueError('Line does not contain specified number of characters to consume'))
+    _consumed(interp, self, exactly=n)
+
+
+def _consume_space(interp, self, args, kwargs):
+    _consumed(interp, self)
+
+
+class ParseSourceI(Interface):
+    """ParseSource (section_document/parse_source.py: C07): the current line, what remains of it and of the whole
+    source; consuming only shortens what remains.  The remaining part of the current line is a prefix of the
+    remaining source."""
+    target_class = ParseSource
+    attrs = {'current_line': Inst(line_source.Line, _tuple=[Int, Str]), 'remaining_source': Str,
+             'remaining_part_of_current_line': Str}
+    methods = {'consume_part_of_current_line': Method(model=_consume_part_of_current_line),
+               'consume_initial_space_on_current_line': Method(model=_consume_space)}
+
+
+def _mk_invalid_argument(interp):
+    e = ipe.SingleInstructionInvalidArgumentException.__new__(ipe.SingleInstructionInvalidArgumentException)
+    e.error_message = Str.make(interp, 'error_message')
+    return e
+
+
+def _parse_instruction(interp, self, args, kwargs):
+    """the parser of one instruction: consumes source; returns the instruction, or raises
+    SingleInstructionInvalidArgumentException (invalid arguments) -- or, being arbitrary code, any Exception"""
+    fs_location_info, source = args
+    _consumed(interp, source)
+    interp.st.emit('instruction-parser', self, source)
+    k = interp.st.choose(3)
+    if k == 1:
+        raise PyRaise(_mk_invalid_argument(interp))
+    if k == 2:
+        raise PyRaise(_models.arbitrary_exception(interp))
+    return Any_.make(interp, 'instruction')
+
+
+class InstructionParserI(Interface):
+    target_class = InstructionParser
+    methods = {'parse': Method(model=_parse_instruction)}
+
+
+def _extract(interp, self, args, kwargs):
+    """InstructionNameExtractor: arbitrary code -- a name that is part of the line (the splitter in use: contract
+    above), some other value, or any Exception"""
+    (line,) = args
+    k = interp.st.choose(3)
+    if k == 1:
+        raise PyRaise(_models.arbitrary_exception(interp))
+    if k == 2:
+        return Any_.make(interp, 'not-a-string')
+    name = Str.make(interp, 'name')
+    interp.st.assume(_z3.Length(_to_z3(name)) <= _z3.Length(_to_z3(line)))
+    return name
+
+
+class NameExtractorI(Interface):
+    methods = {'__call__': Method(model=_extract)}
+
+
+from pyvc.api import MapOf
+
+DICT_PARSER = Inst(pfd.InstructionParserForDictionaryOfInstructions,
+                   _instruction_name_extractor_function=Iface(NameExtractorI),
+                   _InstructionParserForDictionaryOfInstructions__instruction_name__2__single_instruction_parser=
+                   MapOf(Str, Iface(InstructionParserI)))
+
+_FOUR = {ipe.InvalidInstructionSyntaxException: {}, ipe.UnknownInstructionException: {},
+         ipe.InvalidInstructionArgumentException: {}, ipe.ArgumentParsingImplementationException: {}}
+
+M.contract(P_PFD + ':InstructionParserForDictionaryOfInstructions._extract_name',
+           params=dict(self=DICT_PARSER, source=Iface(ParseSourceI)), returns=Str,
+           ensures={'a string that is not longer than the rest of the line': lambda source, result:
+           isinstance(result, str) and len(result) <= len(source.remaining_part_of_current_line)},
+           raises={ipe.InvalidInstructionSyntaxException: {}},      # whatever the extractor does
+           raises_only=())
+
+M.contract(P_PFD + ':InstructionParserForDictionaryOfInstructions._lookup_parser',
+           params=dict(self=DICT_PARSER, original_source_line=Inst(line_source.Line, _tuple=[Int, Str]), name=Str),
+           returns=Iface(InstructionParserI),
+           raises={ipe.UnknownInstructionException: {
+               'when': lambda self, name:
+               name not in self._InstructionParserForDictionaryOfInstructions__instruction_name__2__single_instruction_parser}},
+           raises_only=())
+
+ERR_MSG_CONSTRUCTOR = Inst(pfd._ErrMsgSourceConstructor, _first_line=Inst(line_source.Line, _tuple=[Int, Str]),
+                           _remaining__before=Str)
+
+M.contract(P_PFD + ':_ErrMsgSourceConstructor.ending_at',
+           params=dict(self=ERR_MSG_CONSTRUCTOR, after_parse=Iface(ParseSourceI)),
+           returns=Inst(line_source.LineSequence, _first_line_number=Int, _lines=Any_),
+           ensures={'source lines starting at the first line of the instruction': lambda self, result:
+           result.first_line_number == self._first_line.line_number},
+           raises_only=())
+
+M.contract(P_PFD + ':InstructionParserForDictionaryOfInstructions._parse',
+           params=dict(fs_location_info=Any_, source=Iface(ParseSourceI), parser=Iface(InstructionParserI), name=Str,
+                       err_msg_src_constructor=ERR_MSG_CONSTRUCTOR),
+           returns=Any_, inline=True,
+           # whatever the instruction parser raises becomes a syntax error of the instruction line
+           raises={ipe.InvalidInstructionArgumentException: {}, ipe.ArgumentParsingImplementationException: {}},
+           raises_only=())
+
+M.contract(P_PFD + ':InstructionParserForDictionaryOfInstructions.parse',
+           params=dict(self=DICT_PARSER, fs_location_info=Any_, source=Iface(ParseSourceI)), returns=Any_,
+           ensures={'the instruction parser is asked once': lambda trace:
+           len([e for e in trace if e[0] == 'instruction-parser']) == 1},
+           raises=dict(_FOUR), raises_only=())
